@@ -7,6 +7,8 @@ FAMILY = "catalog"
 RULE = ("every zero-argument constructor found by the translator in characteristic/ (about 170) and service/ (about 54) is "
         "called at run time (under recover) and its object compared field by field with the statically translated record the "
         "Coq theorems are about (type, format, permissions, min / max / step with their Go type, default, unit; services: type, "
+        "characteristic types in order) AND, independently of the translator, with gen/metadata.json read by the oracle (matched by constructor name; "
+        "type, format, permissions, min / max / step, unit, required characteristics); (" 
         "characteristic types in order); all 11 accessory constructors are called. Enumeration is exhaustive over the catalog. "
         "non-trivial = a constructor with bounds or a service")
 EXTRA_FILES = ("Gen/CatalogGen.v", "Gen/MetadataGen.v", "Proofs/CatalogProofs.v")
@@ -42,9 +44,61 @@ def same(c, g, m):
     return c["kind"] == "acc" or g == m
 
 
+_meta = None
+
+
+def metadata():
+    """gen/metadata.json read directly (independent of the translator): constructor name -> definition"""
+    global _meta
+    if _meta is None:
+        import json
+        m = json.load(open(os.path.join(core.REPO, "gen", "metadata.json")))
+
+        def ctor(name):
+            return "New" + "".join(w[:1].upper() + w[1:] for w in re.split(r"[^A-Za-z0-9]+", name) if w)
+
+        def short(u):
+            return u.split("-")[0].lstrip("0") or "0"
+        _meta = {"char": {ctor(x["Name"]): dict(x, short=short(x["UUID"])) for x in m["Characteristics"]},
+                 "svc": {ctor(x["Name"]): dict(x, short=short(x["UUID"]), req=[short(u) for u in x.get("RequiredCharacteristics", [])]) for x in m["Services"]}}
+    return _meta
+
+
+def num(t):
+    return None if t in ("-", "", None) else float(re.sub(r"[if]$", "", t))
+
+
 def oracle(c, obs):
     if obs.startswith("panic") or obs.startswith("nil-base") or obs.startswith("DRIVER-DIED") or obs == "NO-OUTPUT":
         return "constructor %s does not return a usable object: %s" % (c["line"], obs[:60])
+    name = c["line"].split(" ")[-1]
+    if c["kind"] == "char" and name in metadata()["char"]:
+        md = metadata()["char"][name]
+        f = dict(t.split("=", 1) for t in obs.split(" ") if "=" in t)
+        if f.get("type", "").upper() != md["short"].upper():
+            return "%s has type %s, the metadata declares %s" % (name, f.get("type"), md["short"])
+        if f.get("format") != md["Format"]:
+            return "%s has format %s, the metadata declares %s" % (name, f.get("format"), md["Format"])
+        want = [p for p, k in (("pr", "read"), ("pw", "write"), ("ev", "cnotify")) if k in md.get("Properties", [])]
+        if sorted(f.get("perms", "").split(",")) != sorted(want):
+            return "%s has permissions %s, the metadata declares %s" % (name, f.get("perms"), ",".join(want))
+        cons = {k[:1].upper() + k[1:]: v for k, v in md.get("Constraints", {}).items()}     # one entry spells "stepValue"
+        for fld, key in (("min", "MinimumValue"), ("max", "MaximumValue"), ("step", "StepValue")):
+            a, b = num(f.get(fld)), cons.get(key)
+            if (a is None) != (b is None) or (a is not None and abs(a - float(b)) > 1e-9):
+                return "%s has %s %s, the metadata declares %s" % (name, fld, f.get(fld), b)
+        if (f.get("unit") or "") != (md.get("Unit") or ""):
+            return "%s has unit %r, the metadata declares %r" % (name, f.get("unit"), md.get("Unit"))
+    if c["kind"] == "svc" and name in metadata()["svc"]:
+        md = metadata()["svc"][name]
+        m = re.match(r"type=(\S*) chars=(\S*)$", obs)
+        if m:
+            if m.group(1).upper() != md["short"].upper():
+                return "%s has type %s, the metadata declares %s" % (name, m.group(1), md["short"])
+            have = [x.upper() for x in m.group(2).split(",")]
+            missing = [r for r in md["req"] if r.upper() not in have]
+            if missing:
+                return "%s lacks the required characteristics %s" % (name, missing)
     if c["kind"] == "char":
         f = dict(t.split("=", 1) for t in obs.split(" ") if "=" in t)
         if f.get("default", "").startswith("num:") and "pr" in f.get("perms", ""):
